@@ -227,5 +227,5 @@ def build(tier):
                                "a mutation that leaves the architecture unchanged leaves the function unchanged"))
     P.assumptions += ["ranks 1 and 2 (dimension values symbolic); conv kernels (rank 4/5) only through the native adapter"]
     P.uncovered += ["conv kernels of rank 4/5 in shrink_preserve_parameters (the first two dimensions are sliced, spatial dimensions kept whole)", "end-to-end output equality after no-op mutations and clone() (bounded native)",
-                    "Mutations.reinit_from_mutated / load_state_dicts wiring"]
+                    "Mutations.reinit_from_mutated / load_state_dicts wiring is under contract in C02 (single network inside Mutations.mutation, list variant on its own)"]
     return P
